@@ -203,7 +203,7 @@ func (s *sendSpec) calls(p *probe) []string {
 	return out
 }
 
-func (r *rig) sendPieces(req *client.Request, p *probe) (*client.Response, error) {
+func (r *rig) sendPieces(req *client.Request, p *probe, own func() *client.Client) {
 	s := p.send
 	tag := sourceTag[p.src]
 	real := p.want.Interface()
@@ -221,7 +221,7 @@ func (r *rig) sendPieces(req *client.Request, p *probe) (*client.Response, error
 			}
 		case sendTwiceClient, sendClientThenReq:
 			fl := s.filler.Interface()
-			cl2 := client.NewWithClient(r.fc) // same transport, its own client-level parameters
+			cl2 := own() // same transport, its own client-level parameters
 			switch {
 			case p.src == sQuery && s.mode == sendTwiceClient:
 				cl2.SetParamsWithStruct(fl).SetParamsWithStruct(real)
@@ -234,10 +234,6 @@ func (r *rig) sendPieces(req *client.Request, p *probe) (*client.Response, error
 				cl2.SetCookiesWithStruct(fl)
 				req.SetCookiesWithStruct(real)
 			}
-			if p.hdrs != nil && p.hdrs.level == "client" {
-				p.hdrs.apply(func(k, v string) { cl2.SetHeader(k, v) })
-			}
-			req.SetClient(cl2)
 		case sendAdders:
 			for _, c := range s.sched {
 				k, v := s.element(p, c)
@@ -285,9 +281,6 @@ func (r *rig) sendPieces(req *client.Request, p *probe) (*client.Response, error
 		}
 	}
 	switch p.src {
-	case sQuery, sHeader, sCookie:
-		fill()
-		return r.fire(req, p, "Get")
 	case sMultipart:
 		if s.fileFirst {
 			r.attachFiles(req, s)
@@ -299,7 +292,6 @@ func (r *rig) sendPieces(req *client.Request, p *probe) (*client.Response, error
 	default:
 		fill()
 	}
-	return r.fire(req, p, "Post")
 }
 
 // sendCorpus: the smallest interleaved witnesses, one per source and file API; and the struct
